@@ -11,7 +11,9 @@ RULE = ("(a) Hypothesis: signed generator lists for n = 2..6, both constructed v
         "graphs for n = 5, 6; (c) Hypothesis Clifford circuits over the documented gate set (0..60 gates). A case is one "
         "input in one format. Non-trivial = (strings) >= 1 Y, >= 1 minus sign and a non-palindromic string, so that order "
         "and sign conventions are observable; (graph) >= 1 edge and not invariant under vertex reversal; (circuit) >= 1 "
-        "two-qubit gate. Distinct by the input. Oracle: own strict parser (char i = qubit i, Hermitian Y), matrices "
+        "two-qubit gate; a third of the circuits is written with other qiskit idioms for the same gates (runs of Paulis as one "
+        "`pauli` instruction, h-s-h as sx, sdg-cx-s as cy, barriers, a chunk wrapped into a sub-circuit gate/instruction) while "
+        "the oracle keeps the plain gate list. Distinct by the input. Oracle: own strict parser (char i = qubit i, Hermitian Y), matrices "
         "column-by-column, X_v Z_N(v) from the adjacency bitmask, dense simulation of circuits, signed RREF canonical form.")
 ASSUMPTIONS = ["own Pauli parser and signed canonical form (self-tested against dense matrices)", "dense simulator"]
 BUDGET = {"quick": 300, "thorough": 2400}
@@ -113,7 +115,7 @@ def check_circuit(case):
     n = case["n"]
     ops = [(o[0], tuple(o[1])) for o in case["ops"]]
     fails = []
-    qc = libif.build_circuit(n, ops, case.get("registers"))
+    qc = libif.build_circuit(n, ops, case.get("registers"), form_salt=case.get("form_salt", 0))
     try:
         st = L.Stabilizer(qc)
         strs = list(st.to_list())
@@ -129,7 +131,7 @@ def check_circuit(case):
         ev = dense.expectation(psi, g, n)
         if abs(ev - 1) > 1e-9:
             kind = "sign" if abs(ev + 1) < 1e-9 else "group"
-            fails.append((f"circuit/{kind}", f"exported generator {s} does not stabilise circuit|0..0> (<P> = {ev:+.3f}); circuit {libif.plain_ops(ops)}", {}))
+            fails.append((f"circuit/{kind}", f"exported generator {s} does not stabilise circuit|0..0> (<P> = {ev:+.3f}); circuit {libif.plain_ops(ops)}{' written as ' + str(libif.idiomatic(ops, case['form_salt'])) if case.get('form_salt') else ''}", {}))
             break
     if not pauli.is_valid_stabilizer(gens, n):
         fails.append(("circuit/independence", f"exported strings {strs} are not {n} commuting independent Paulis", {}))
@@ -141,6 +143,13 @@ def check_circuit(case):
     if R != Rw.astype(int).tolist() or S != Sw.astype(int).tolist() or ph != pw.astype(int).tolist():
         fails.append(("circuit/data-vs-export", "R/S/phases of the object do not match its exported strings", {}))
     return fails
+
+
+def written_form(case):
+    if not case.get("form_salt"):
+        return "plain gates"
+    names = sorted({o[0] for o in libif.idiomatic([(o[0], tuple(o[1])) for o in case["ops"]], case["form_salt"])} & {"pauli", "sx", "sxdg", "cy", "barrier", "sub"})
+    return "idioms:" + ("+".join(names) or "none-applicable")
 
 
 def check_case(case):
@@ -163,7 +172,8 @@ def classify(case):
     ops = case["ops"]
     two = any(len(o[1]) == 2 for o in ops)
     return (("c", case["n"], tuple((o[0], tuple(o[1])) for o in ops), tuple(case.get("registers", ()))) if two else None), \
-        {"kind": "circuit", "circuit_n": case["n"], "circuit_registers": len(case.get("registers", [1]))}
+        {"kind": "circuit", "circuit_n": case["n"], "circuit_registers": len(case.get("registers", [1])),
+         "circuit_written": written_form(case)}
 
 
 def strategy():
@@ -198,6 +208,7 @@ def strategy():
         if draw(st.integers(0, 2)) == 0:      # the same circuit spread over several quantum registers
             cuts = sorted(set(draw(st.lists(st.integers(1, n - 1), min_size=1, max_size=2))))
             case["registers"] = [b - a for a, b in zip([0] + cuts, cuts + [n])]
+        case["form_salt"] = draw(st.sampled_from([0, 0, 1])) and draw(st.integers(1, 10 ** 6))
         return case
     return st.one_of(string_cases(), string_cases(), circ_cases(), graph_cases())
 
